@@ -31,7 +31,7 @@ package chpool
 
 //@ contract (p *Pool) Acquire(ctx) (c, err) props(C11)
 //@   requires p != nil && p.pool != nil
-//@   modifies all(p.pool)
+//@   modifies all(p.pool), all(ctx)
 //@   ensures err == nil ==> c != nil && c.p == p && c.res != nil && c.res.acquired {holds-on-success}
 //@   ensures err != nil ==> c == nil {nothing-on-failure}
 
@@ -41,10 +41,10 @@ package chpool
 
 //@ contract (c *Client) Do(ctx, q) (err) props(C11)
 //@   requires c != nil && c.res != nil && c.res.acquired && c.res.value != nil && c.res.value.client != nil
-//@   modifies all(c.res.value.client)
+//@   modifies all(c.res.value.client), all(ctx)
 //@ contract (c *Client) Ping(ctx) (err) props(C11)
 //@   requires c != nil && c.res != nil && c.res.acquired && c.res.value != nil && c.res.value.client != nil
-//@   modifies all(c.res.value.client)
+//@   modifies all(c.res.value.client), all(ctx)
 
 //@ -- constructor / destructor handed to puddle
 //@ contract newPool$1(ctx) (r, err) props(C11)
@@ -58,7 +58,7 @@ package chpool
 
 //@ contract (p *Pool) Do(ctx, q) (err) props(C11)
 //@   requires p != nil && p.pool != nil
-//@   modifies all(p.pool)
+//@   modifies all(p.pool), all(ctx)
 //@ contract (p *Pool) Ping(ctx) (err) props(C11)
 //@   requires p != nil && p.pool != nil
-//@   modifies all(p.pool)
+//@   modifies all(p.pool), all(ctx)
